@@ -41,6 +41,8 @@ public:
     void visitGuard(expression_t& guard);
     void visitLocation(location_t& state) override;
     void visitVariable(variable_t&) override;
+    void visitFunction(function_t&) override;
+    int32_t visitExprStatement(ExprStatement* stat) override;
     bool visitTemplateBefore(template_t&) override;
 
     void visitFrame(const frame_t& frame);
